@@ -3,7 +3,7 @@ from the rng passed in (one PRNG per check, seeded from VERIF_SEED)."""
 import itertools
 
 WORDS = ['a', 'foo', 'bar.', 'GPL-2+', 'x:y', '(c)', '2019', 'é', '漢字', '-', '--', '.', '..', '.x',
-         '*', 'b/c', 'A', 'zz', '1', '~', '+', 'Ünï', '"q"', '#', '{}', '{0}', '%s', '\\n', '[a]', '<b>', 'a=b', 'e\u0301', 'K', '\u2126', '=?utf-9?q?x?=', '=?utf-8?b?a?=', '=?ascii?q?=FF?=', '#x', '#', '//x', '//example.org/a', 'http://x/y', '/usr', 'a%3ab', '%3a', 'b:any']
+         '*', 'b/c', 'A', 'zz', '1', '~', '+', 'Ünï', '"q"', '#', '{}', '{0}', '%s', '\\n', '[a]', '<b>', 'a=b', 'e\u0301', 'K', '\u2126', '=?utf-9?q?x?=', '=?utf-8?b?a?=', '=?ascii?q?=FF?=', '#x', '#', '//x', '//example.org/a', 'http://x/y', '/usr', 'a%3ab', '%3a', 'b:any', '²', '①', '٢٠١٩', '2019²', '፩']
 TERMS = ['\n'] * 12 + ['\r\n', '\r', '\n', '\n']
 ODD_BREAKS = ['\x0b', '\x0c', '\x1c', '\x1d', '\x1e', '\x85', '\u2028', '\u2029']
 ODD_SPACES = ['\x1f', '\xa0', '\u1680', '\u2000', '\u2009', '\u202f', '\u205f', '\u3000']
